@@ -414,7 +414,10 @@ static uint64_t state_key(const Db* db)
 
 // ------------------------------------------------------------------------------------------------------------
 // invariants; returns the class of the first failure ("" = all hold) and a text
-static std::string judge(const Db* db, RefTable& m, std::string& why)
+// The clauses comparing the implementation with the model are evaluated for every history. The clauses that only
+// cross-check the public designation API of the implementation against itself (name / UID / locator look-ups) are a
+// function of the hidden state alone: they are evaluated once per distinct canonical state key (deep == true).
+static std::string judge(const Db* db, RefTable& m, std::string& why, bool deep)
 {
   std::ostringstream o;
   int ncol = db->getColumnNumber();
@@ -448,7 +451,7 @@ static std::string judge(const Db* db, RefTable& m, std::string& why)
     for (int i = 0; i < ncol; i++) if (hit[i] != 1) { o << "column " << i << " is the image of " << hit[i] << " UIDs"; why = o.str(); return "uid-table"; }
   }
   // designations
-  for (int i = 0; i < ncol; i++)
+  for (int i = 0; deep && i < ncol; i++)
   {
     const std::string& n = m.cols[i].name;
     int u = m.cols[i].uid;
@@ -472,15 +475,16 @@ static std::string judge(const Db* db, RefTable& m, std::string& why)
   // values through every designation
   for (int i = 0; i < ncol; i++)
   {
-    VectorDouble byname = db->getColumn(m.cols[i].name, false, false);
-    VectorDouble byuid = db->getColumnByUID(m.cols[i].uid, false, false);
-    if ((int)byname.size() != m.nech || (int)byuid.size() != m.nech) { o << "getColumn/getColumnByUID of column " << i << " have sizes " << byname.size() << "/" << byuid.size() << " nech=" << m.nech; why = o.str(); return "values"; }
+    VectorDouble byname, byuid;
+    if (deep) { byname = db->getColumn(m.cols[i].name, false, false); byuid = db->getColumnByUID(m.cols[i].uid, false, false); }
+    if (deep && ((int)byname.size() != m.nech || (int)byuid.size() != m.nech)) { o << "getColumn/getColumnByUID of column " << i << " have sizes " << byname.size() << "/" << byuid.size() << " nech=" << m.nech; why = o.str(); return "values"; }
     for (int e = 0; e < m.nech; e++)
     {
       double v = db->getValueByColIdx(e, i);
       if (m.cols[i].unspec[e]) { m.cols[i].v[e] = v; m.cols[i].unspec[e] = 0; }
       double r = m.cols[i].v[e];
       if (!same(v, r)) { o << "cell (sample " << e << ", column " << i << " '" << m.cols[i].name << "') = " << fmt(v) << " model=" << fmt(r); why = o.str(); return "values"; }
+      if (!deep) continue;
       double a = db->getArray(e, m.cols[i].uid), b = db->getValue(m.cols[i].name, e);
       if (!same(a, r) || !same(b, r) || !same(byname[e], r) || !same(byuid[e], r))
       { o << "cell (sample " << e << ", column " << i << ") read by index=" << fmt(v) << " by UID=" << fmt(a) << " by name=" << fmt(b) << " getColumn=" << fmt(byname[e]) << " getColumnByUID=" << fmt(byuid[e]); why = o.str(); return "designation"; }
@@ -512,7 +516,7 @@ static std::string judge(const Db* db, RefTable& m, std::string& why)
       why = o.str();
       return "roles-model";
     }
-    for (size_t k = 0; k < L.size(); k++)
+    for (size_t k = 0; deep && k < L.size(); k++)
     {
       int i = m.idxOfUid(L[k]);
       ELoc lt; int li;
@@ -525,7 +529,7 @@ static std::string judge(const Db* db, RefTable& m, std::string& why)
         if (!same(db->getFromLocator(eloc(T), e, (int)k), m.cols[i].v[e])) { o << "getFromLocator(" << lname(T) << "," << e << "," << k << ") differs from the cell of column " << i; why = o.str(); return "roles-designation"; }
     }
   }
-  for (int i = 0; i < ncol; i++)
+  for (int i = 0; deep && i < ncol; i++)
     if (!roleOf.count(m.cols[i].uid))
     {
       ELoc lt; int li;
@@ -575,10 +579,15 @@ static void explore(Ctx& C, int start, int depth)
       if (db->getColumnNumber() == m.ncol()) for (int c = 0; c < m.ncol(); c++) m.cols[c].name = db->_colNames[c];
     }
     StepResult r;
-    std::string why;
-    std::string cls = judge(db, m, why);
-    if (cls.empty() && !bad.empty()) { cls = "return-value"; why = bad; }
     r.key = state_key(db);
+    static std::unordered_set<uint64_t> apiJudged;
+    uint64_t jk = Hash().s(C.cur_part).u(r.key).u(m.gap).h;
+    bool deep = !apiJudged.count(jk);
+    std::string why;
+    std::string cls = judge(db, m, why, deep);
+    if (cls.empty() && deep) apiJudged.insert(jk);
+    C.outcome(deep ? "api-cross-checks-evaluated" : "api-cross-checks-memoized(same hidden state)");
+    if (cls.empty() && !bad.empty()) { cls = "return-value"; why = bad; }
     std::string kind = h.empty() ? "start" : OPS[h.back()].kind + tag;
     if (!cls.empty())
     {
@@ -605,9 +614,9 @@ static void explore(Ctx& C, int start, int depth)
 }
 
 VF_PART(db_plain) { explore(C, 1, C.thorough() ? 4 : 3); }
-VF_PART(db_rank) { explore(C, 2, 3); }
+VF_PART(db_rank) { explore(C, 2, C.thorough() ? 3 : 2); }
 VF_PART(db_empty) { explore(C, 0, C.thorough() ? 4 : 3); }
-VF_PART(grid) { explore(C, 3, 3); }
+VF_PART(grid) { explore(C, 3, C.thorough() ? 3 : 2); }
 
 int main(int argc, char** argv)
 {
